@@ -1,41 +1,42 @@
 /- C20 line-protocol driver: `lake env lean --run PorepyVerif/C20/Driver.lean`
    op `geom`: {"op":"geom","dim":1|2|3,"grid":<resolved grid>} → the five geometry fields computed by the model
    (square roots through `asqrt`), or {"err":…} where the code raises.
-   op `motion`: the rigid motion of the case applied exactly to the reference nodes. -/
+   op `motion`: the rigid motion of the case applied exactly to the reference nodes.
+   op `mapgrid`: compute_geometry + map_grid (rotation onto the coordinate plane / axis, active dimensions). -/
 import PorepyVerif.Common.Wire
 import PorepyVerif.C20.Model
 open Lean PV PorepyVerif.C20
 
-def jV3 (j : Json) : R V3 := do
+def jV3 (j : Json) : R (V3 Rat) := do
   match (← jList jRat j) with
   | [x, y, z] => pure ⟨x, y, z⟩
   | _ => throw s!"not a 3-vector: {j.compress}"
 
-def fV3 (j : Json) (k : String) : R V3 := field j k >>= jV3
-def fV3s (j : Json) (k : String) : R (List V3) := field j k >>= jList jV3
+def fV3 (j : Json) (k : String) : R (V3 Rat) := field j k >>= jV3
+def fV3s (j : Json) (k : String) : R (List (V3 Rat)) := field j k >>= jList jV3
 
-def ofV3 (v : V3) : Json := ofRats [v.x, v.y, v.z]
+def ofV3 (v : V3 Rat) : Json := ofRats [v.x, v.y, v.z]
 
-def ofOut (o : Out) : Json :=
+def ofOut (o : Out Rat) : Json :=
   obj [("fa", ofRats o.fa), ("fc", ofList ofV3 o.fc), ("fn", ofList ofV3 o.fn), ("cv", ofRats o.cv), ("cc", ofList ofV3 o.cc)]
 
-def jInc1 (j : Json) : R Inc1 := do
+def jInc1 (j : Json) : R (Inc1 Rat) := do
   pure ⟨← fNat j "f", ← fInt j "s", ← fV3 j "x"⟩
 
-def jCell1 (j : Json) : R (Inc1 × Inc1) := do
+def jCell1 (j : Json) : R (Inc1 Rat × Inc1 Rat) := do
   match (← jList jInc1 j) with
   | [a, b] => pure (a, b)
   | _ => throw "a 1-d cell needs exactly two faces"
 
-def jInc2 (j : Json) : R Inc2 := do
+def jInc2 (j : Json) : R (Inc2 Rat) := do
   pure ⟨← fNat j "f", ← fInt j "s", ← fNat j "n0", ← fNat j "n1", ← fV3 j "a", ← fV3 j "b"⟩
 
-def jPair (j : Json) : R (V3 × V3) := do
+def jPair (j : Json) : R (V3 Rat × V3 Rat) := do
   match (← jList jV3 j) with
   | [a, b] => pure (a, b)
   | _ => throw "a 2-d face needs exactly two nodes"
 
-def jFace3 (j : Json) : R (Int × List V3) := do
+def jFace3 (j : Json) : R (Int × List (V3 Rat)) := do
   pure (← fInt j "s", ← fV3s j "ps")
 
 def geom (j : Json) : R Json := do
@@ -43,15 +44,45 @@ def geom (j : Json) : R Json := do
   let g ← field j "grid"
   match dim with
   | 1 =>
-    let gr : Grid1 := ⟨← fV3s g "nodes", ← fV3s g "faces", ← field g "cells" >>= jList jCell1⟩
+    let gr : Grid1 Rat := ⟨← fV3s g "nodes", ← fV3s g "faces", ← field g "cells" >>= jList jCell1⟩
     pure (ofOut (geom1 asqrt gr))
   | 2 =>
-    let gr : Grid2 := ⟨← fV3s g "nodes", ← field g "faces" >>= jList jPair, ← field g "cells" >>= jList (jList jInc2)⟩
+    let gr : Grid2 Rat := ⟨← fV3s g "nodes", ← field g "faces" >>= jList jPair, ← field g "cells" >>= jList (jList jInc2)⟩
     if geom2Err asqrt gr then pure (err "RuntimeError") else pure (ofOut (geom2 asqrt gr))
   | 3 =>
-    let gr : Grid3 := ⟨← field g "faces" >>= jList (jList jV3), ← field g "cells" >>= jList (jList jFace3)⟩
+    let gr : Grid3 Rat := ⟨← field g "faces" >>= jList (jList jV3), ← field g "cells" >>= jList (jList jFace3)⟩
     if geom3Err asqrt gr then pure (err "ValueError") else pure (ofOut (geom3 asqrt gr))
   | _ => throw s!"unsupported dim {dim}"
+
+def ofMat (R : Mat3 Rat) : Json := ofList ofV3 [R.r1, R.r2, R.r3]
+
+def ofMap (m : MapOut Rat) (margin : Rat) : Json :=
+  obj [("R", ofMat m.R), ("dim", Json.arr #[Json.bool m.mx, Json.bool m.my, Json.bool m.mz]),
+       ("cc", ofList ofV3 m.cc), ("fn", ofList ofV3 m.fn), ("fc", ofList ofV3 m.fc), ("nodes", ofList ofV3 m.nodes),
+       ("margin", ofRat margin)]
+
+def countTrue (m : MapOut Rat) : Nat := (if m.mx then 1 else 0) + (if m.my then 1 else 0) + (if m.mz then 1 else 0)
+
+/-- op `mapgrid`: compute_geometry followed by map_grid on a 1-D or 2-D grid; `margin` = how safely the argmax
+    selections inside compute_tangent / compute_normal are decided (rounding may pick another point on a tie) -/
+def mapgrid (j : Json) : R Json := do
+  let dim ← fNat j "dim"
+  let g ← field j "grid"
+  match dim with
+  | 1 =>
+    let gr : Grid1 Rat := ⟨← fV3s g "nodes", ← fV3s g "faces", ← field g "cells" >>= jList jCell1⟩
+    let m := mapGrid asqrt 1 gr.nodes (geom1 asqrt gr)
+    if countTrue m != 1 then pure (err "AssertionError") else
+    pure (ofMap m (argmaxMargin ((centred gr.nodes).map V3.norm2)))
+  | 2 =>
+    let gr : Grid2 Rat := ⟨← fV3s g "nodes", ← field g "faces" >>= jList jPair, ← field g "cells" >>= jList (jList jInc2)⟩
+    if geom2Err asqrt gr || collinearErr asqrt gr.nodes then pure (err "RuntimeError") else
+    let m := mapGrid asqrt 2 gr.nodes (geom2 asqrt gr)
+    if countTrue m != 2 then pure (err "AssertionError") else
+    let m1 := argmaxMargin ((centred gr.nodes).map (nrm asqrt))
+    let m2 := argmaxMargin ((pnCross asqrt gr.nodes).map (nrm asqrt))
+    pure (ofMap m (if m1 < m2 then m1 else m2))
+  | _ => throw s!"mapgrid: unsupported dim {dim}"
 
 /-- op `motion`: {"q":[w,x,y,z],"t":[..],"pts":[[..],..]} → is the quaternion matrix a proper rotation (decided with
     the model's `IsRot`), and the exact images of the points under the model's `act` -/
@@ -60,7 +91,7 @@ def motion (j : Json) : R Json := do
   let pts ← fV3s j "pts"
   match (← fRats j "q") with
   | [w, x, y, z] =>
-    let M : Motion := ⟨quatMat w x y z, t⟩
+    let M : Motion Rat := ⟨quatMat w x y z, t⟩
     pure (obj [("isrot", Json.bool (decide M.R.IsRot)), ("pts", ofList ofV3 (pts.map (act M)))])
   | _ => throw "q needs four entries"
 
@@ -69,6 +100,7 @@ def step (j : Json) : R Json := do
   match op with
   | "geom" => geom j
   | "motion" => motion j
+  | "mapgrid" => mapgrid j
   | _ => throw s!"unknown op {op}"
 
 def main : IO Unit := runPure step
